@@ -37,13 +37,25 @@ var dbn int64
 func openSqlite(file string) *backend {
 	n := atomic.AddInt64(&dbn, 1)
 	dsn := fmt.Sprintf("file:vstore%d_%d?mode=memory&cache=shared", os.Getpid(), n)
-	if file != "" {
+	if file != "" && file != ":memory:" {
 		dsn = "file:" + file + "?_busy_timeout=10000"
+	}
+	if file == ":memory:" {
+		// the path the server uses for a private in-memory database; only the store's own handle reaches it
+		dsn = ":memory:"
 	}
 	m := metrics.New(prometheus.NewRegistry())
 	st, err := sqlite.New(nil, m, &sqlite.Config{Size: 10, BatchSize: 10, Path: dsn, TxTimeout: 10 * time.Second})
 	if err != nil {
 		panic(err)
+	}
+	if file == ":memory:" {
+		db := st.VerifDB()
+		db.SetMaxOpenConns(1)
+		if err := st.Start(nil); err != nil {
+			panic(err)
+		}
+		return &backend{name: "sqlite", process: st.Process, obs: db, dsn: dsn, close: func() { _ = st.Stop() }}
 	}
 	obs, err := sql.Open("sqlite3", dsn)
 	if err != nil {
@@ -452,6 +464,10 @@ func main() {
 		}
 		r := &runner{prop: *prop, rep: rep, guards: guards}
 		rng := rand.New(rand.NewSource(vh.Mix(*seed, *prop, j.fam, j.idx)))
+		useMem = j.idx%3 == 2
+		if useMem {
+			rep.Hit("backend.sqlite-path-memory")
+		}
 		switch j.fam {
 		case "seq":
 			runSeq(r, rng, *prop)
@@ -514,8 +530,14 @@ func backendsFor(prop string) []*backend {
 	if prop == "C17" {
 		return []*backend{openSqlite(""), openPg()}
 	}
+	if useMem {
+		return []*backend{openSqlite(":memory:")}
+	}
 	return []*backend{openSqlite("")}
 }
+
+// useMem: this job runs SQLite on the path ":memory:" (a private database, observed through the store's own handle)
+var useMem bool
 
 // runSeq: a sequence of batches on an evolving database; every backend is compared with the model after every batch.
 func runSeq(r *runner, rng *rand.Rand, prop string) {
